@@ -20,6 +20,12 @@ HARNESSES = [
     H('h_ctx', 'MODE_CTX', ['checkBtcBlocks valid iff every context header meets its PoW and each header references the hash of its predecessor'],
       {'defines': ['NBLK=3'], 'bound': '1..3 context headers, two difficulties, 2 symbolic hash bytes each, symbolic link breaks', 'timeout': 250},
       {'defines': ['NBLK=4'], 'bound': '1..4 context headers', 'timeout': 1500, 'jobs': 16}, covers=(1, 2, 3)),
+    H('h_vbkpow', 'MODE_VBKPOW', ['checkProofOfWork(VbkBlock) == reference: difficulty decoded from compact form (sign / overflow / zero rules), at least the network minimum (regtest / testnet / mainnet), target = floor((2^192-1)/difficulty), 192-bit hash <= target, for ALL hashes'],
+      {'bound': '3 networks x 48 difficulties (exponent 1..8 x 6 mantissas incl. zero, the minima and a negative one) x all 192-bit hashes', 'timeout': 250, 'jobs': 16}, {'bound': 'as quick', 'timeout': 600, 'jobs': 16}, covers=(1, 2), jobs=16),
+    H('h_vbkplaus', 'MODE_VBKPLAUS', ['checkVbkBlockPlausibility == the documented window: height at or above the progpow fork height and inside the supported epochs; on networks with a progpow start time the timestamp lies in [max(start, start + 30s*(h-fork)*10/12 - 5 days), start + 30s*(h-fork)*12/10 + 5 days]'],
+      {'bound': '3 networks, 41 heights from fork-16 to fork+71064 (case split), all 2^32 timestamps (symbolic)', 'timeout': 250, 'jobs': 16}, {'bound': 'as quick', 'timeout': 600, 'jobs': 16}, covers=(1, 2, 3), jobs=16),
+    H('h_vbkctx', 'MODE_VBKCTX', ['checkVbkBlocks valid iff every header meets its PoW, heights increase by exactly one and each header carries the last 12 bytes of its predecessor\'s hash'],
+      {'defines': ['NBLK=3'], 'bound': '3 networks, 1..3 headers, two difficulties, 2 symbolic hash bytes each, link / height breaks', 'timeout': 250}, {'defines': ['NBLK=4'], 'bound': '1..4 headers', 'timeout': 900, 'jobs': 16}, covers=(1, 2, 3)),
 ]
 def HC(name, macro, what, nl_q, nl_t, tq, tt):
     return {'name': name, 'src': 'C05/h_compose.cpp', 'entry': 'h_compose', 'repo_srcs': SRCS, 'defines': [macro], 'covers': [1, 2, 3, 4], 'jobs': 16, 'override': True,
